@@ -445,10 +445,11 @@ pub const ANN_KEYS: [&str; 17] = [
     "unknownKey",
 ];
 
-pub const ANN_VALUES: [&str; 14] = [
+pub const ANN_VALUES: [&str; 15] = [
     "text",
     "\"quoted: text\"",
     "42",
+    "0",
     "-1",
     "18446744073709551616",
     "1.5",
